@@ -13,6 +13,8 @@ from harness.common import (Harness, patch, install_np, install_h5, shimmed,
 import cell_type_mapper.utils.csc_to_csr as M
 import cell_type_mapper.utils.h5_utils as HU
 import cell_type_mapper.utils.sparse_utils as SU
+import cell_type_mapper.utils.csc_to_csr_parallel as PAR
+import cell_type_mapper.utils.anndata_utils as AU
 
 CHUNKS = [1, 2, 3, 1000]
 
@@ -32,13 +34,15 @@ class FloorModel:
     once'), which covers every budget and exercises the multi-block
     loops that need > 100 stored entries in production."""
 
-    def __init__(self, ctx):
+    def __init__(self, ctx, chunks=None):
         self.ctx, self.n = ctx, 0
+        self.chunks = chunks or CHUNKS
 
     def __call__(self, *a, **k):
         if len(a) == 2 and isinstance(a[0], int) and a[0] == 100 and not k:
             self.n += 1
-            return CHUNKS[self.ctx.choice(f"block{self.n}", len(CHUNKS))]
+            ch = self.chunks
+            return ch[self.ctx.choice(f"block{self.n}", len(ch))]
         return max(*a, **k)
 
 
@@ -187,6 +191,237 @@ def h_merge_csr(ctx, case):
     return 'ok'
 
 
+def setup_par(case, mode):
+    from symx import mpmodel
+    set_mode(mode)
+    if shimmed(mode):
+        install_np(M, PAR)
+        install_h5(M, PAR)
+    patch(PAR, 'multiprocessing', mpmodel.multiprocessing)
+    patch(PAR, 'print', lambda *a, **k: None)
+
+
+def classify_par(f, case):
+    lab = f['label'] + str(f.get('exc'))
+    if 'ValueError' in lab and 'hunk' in lab:
+        w = f['witness']
+        nr, nc = case['shape']
+        nnz = sum(1 for r in range(nr) for c in range(nc)
+                  if w.get(f"x.nz[{r},{c}]") is True)
+        if nnz == 0:
+            return ('F14:parallel-transposition-without-stored-entry:'
+                    'chunks=(0,)')
+        if w.get('use_data') is True or case.get('data') is True:
+            if nnz < nr + 1:
+                return ('F11:parallel-transposition-data-chunks-sized-by-'
+                        'indptr:nnz<minor_len+1')
+    return None
+
+
+def h_parallel(ctx, case):
+    """transpose_sparse_matrix_on_disk_v2: minor-axis range split over
+    workers, pieces concatenated in range order"""
+    from symx import mpmodel
+    nr, nc = case['shape']
+    env = Env(ctx)
+    dense = dense_from_bits(ctx, 'x', nr, nc)
+    indptr, indices, data = to_csc(dense)
+    use_data = ctx.flag('use_data') if case.get('data', 'both') == 'both' \
+        else case['data']
+    patch(M, 'max', FloorModel(ctx, [1, 1000]) if case.get('blocks')
+          else max)
+    nproc = ctx.int('n_processors', 1, case.get('max_proc', 3))
+    mpmodel.SCHED.reset(K=case.get('K', 1))
+    src = env.path('src.h5')
+    with env.File(src, 'w') as f:
+        env.write_sparse(f, indptr, indices, data if use_data else None,
+                         dtype=np.float64)
+    out = env.path('out.h5')
+    try:
+        PAR.transpose_sparse_matrix_on_disk_v2(
+            h5_path=src, indices_tag='indices', indptr_tag='indptr',
+            data_tag='data' if use_data else None, indices_max=nr,
+            max_gb=1, output_path=out, tmp_dir=env.dir,
+            n_processors=nproc)
+    except Exception as e:
+        ctx.exception(e)
+        return 'EXC ' + type(e).__name__
+    ctx.reach('transposed')
+    with env.File(out, 'r') as f:
+        oip = [int(v) for v in f['indptr'][()]]
+        oix = [int(v) for v in f['indices'][()]]
+        odt = list(f['data'][()]) if use_data else None
+    nnz = sum(1 for r in range(nr) for c in range(nc)
+              if dense[r][c] is not None)
+    ctx.check(len(oip) == nr + 1 and oip[0] == 0 and oip[-1] == nnz
+              and all(a <= b for a, b in zip(oip, oip[1:])),
+              'pointer array monotone from 0 to the number of stored '
+              'entries')
+    ok = len(oip) == nr + 1
+    for r in range(nr):
+        if not ok:
+            break
+        cols = [c for c in range(nc) if dense[r][c] is not None]
+        seg = oix[oip[r]:oip[r + 1]]
+        ctx.check(seg == cols, 'minor indices of each slice are exactly the '
+                  'stored positions, sorted and unique')
+        if use_data and seg == cols:
+            for k, c in enumerate(cols):
+                ctx.check(same_value(ctx, odt[oip[r] + k], dense[r][c]),
+                          'every stored value sits at its transposed '
+                          'position')
+    import os
+    left = [n for n in os.listdir(env.dir) if n not in ('src.h5', 'out.h5')]
+    ctx.check(left == [], 'scratch directory empty afterwards')
+    return 'ok'
+
+
+def setup_copy(case, mode):
+    set_mode(mode)
+    if shimmed(mode):
+        install_np(AU)
+        install_h5(AU)
+
+
+def h_copy_layer(ctx, case):
+    """_copy_layer_to_x_dense / _copy_layer_to_x_sparse: X of the new
+    file == the layer of the old one, for every storage chunking"""
+    from harness.C05 import write_h5ad_x
+    nr, nc = case['shape']
+    enc = case['enc']
+    env = Env(ctx)
+    dense = dense_from_bits(ctx, 'x', nr, nc)
+    src = env.path('src.h5ad')
+    ch = None
+    if enc == 'dense':
+        if ctx.flag('chunked'):
+            ch = (1 + ctx.choice('chunk_r', nr), 1 + ctx.choice('chunk_c',
+                                                                nc))
+        write_h5ad_x(env, src, dense, enc, layer='layers/raw',
+                     dense_chunks=ch)
+    else:
+        write_h5ad_x(env, src, dense, enc, layer='layers/raw')
+    dst = env.path('dst.h5ad')
+    with env.File(dst, 'w') as f:
+        f.create_group('obs')
+    try:
+        if enc == 'dense':
+            AU._copy_layer_to_x_dense(src, dst, 'layers/raw')
+        else:
+            AU._copy_layer_to_x_sparse(src, dst, 'layers/raw')
+    except Exception as e:
+        ctx.exception(e)
+        return 'EXC ' + type(e).__name__
+    ctx.reach('copied')
+    with env.File(dst, 'r') as f:
+        if enc == 'dense':
+            X = f['X'][()]
+            ok = tuple(X.shape) == (nr, nc)
+            ctx.check(ok, 'X has the shape of the layer')
+            if ok:
+                for r in range(nr):
+                    for c in range(nc):
+                        want = 0.0 if dense[r][c] is None else dense[r][c]
+                        ctx.check(same_value(ctx, X[r, c], want),
+                                  'X == layer, element by element')
+            ctx.check(dict(f['X'].attrs).get('encoding-type') == 'array',
+                      'encoding attribute carried over')
+        else:
+            ip, ix, dt = to_csr(dense) if enc == 'csr' else to_csc(dense)
+            ctx.check([int(v) for v in f['X/indptr'][()]] == ip and
+                      [int(v) for v in f['X/indices'][()]] == ix,
+                      'sparse structure copied')
+            got = list(f['X/data'][()])
+            ok = len(got) == len(dt)
+            ctx.check(ok, 'sparse data length')
+            if ok:
+                for a, b in zip(got, dt):
+                    ctx.check(same_value(ctx, a, b), 'sparse data copied')
+            ctx.check(dict(f['X'].attrs).get('encoding-type')
+                      == f'{enc}_matrix' and
+                      list(dict(f['X'].attrs).get('shape')) == [nr, nc],
+                      'encoding attributes carried over')
+    return 'ok'
+
+
+def h_amalgamate(ctx, case):
+    """amalgamate_csr_to_x / amalgamate_dense_to_x: stacking row
+    selections from several files"""
+    nc = case['cols']
+    env = Env(ctx)
+    sparse = case['sparse']
+    paths, stacked = [], []
+    for p in range(case['pieces']):
+        d = dense_from_bits(ctx, f"m{p}", case['rows'][p], nc)
+        stacked += d
+        path = env.path(f'piece{p}.h5')
+        with env.File(path, 'w') as f:
+            if sparse:
+                ip, ix, dt = to_csr(d)
+                env.write_sparse(f, ip, ix, dt, dtype=np.float64)
+            else:
+                vals = [[0.0 if v is None else v for v in row] for row in d]
+                if env.fake:
+                    from symx.npshim import sarr
+                    f.create_dataset('data', data=sarr(vals),
+                                     dtype=np.float64)
+                else:
+                    f.create_dataset('data', data=np.array(
+                        [[float(v) for v in row] for row in vals]))
+        paths.append(path)
+    dst = env.path('dst.h5ad')
+    with env.File(dst, 'w') as f:
+        f.create_group('obs')
+    n = len(stacked)
+    try:
+        if sparse:
+            AU.amalgamate_csr_to_x(paths, dst, (n, nc))
+        else:
+            AU.amalgamate_dense_to_x(paths, dst, (n, nc))
+    except Exception as e:
+        ctx.exception(e)
+        return 'EXC ' + type(e).__name__
+    ctx.reach('stacked')
+    with env.File(dst, 'r') as f:
+        if sparse:
+            ip, ix, dt = to_csr(stacked)
+            ctx.check([int(v) for v in f['X/indptr'][()]] == ip,
+                      'stacked pointer array')
+            ctx.check([int(v) for v in f['X/indices'][()]] == ix,
+                      'stacked indices')
+            got = list(f['X/data'][()])
+            ok = len(got) == len(dt)
+            ctx.check(ok, 'stacked data length')
+            if ok:
+                for a, b in zip(got, dt):
+                    ctx.check(same_value(ctx, a, b), 'stacked data')
+        else:
+            X = f['X'][()]
+            ok = tuple(X.shape) == (n, nc)
+            ctx.check(ok, 'stacked shape')
+            if ok:
+                for r in range(n):
+                    for c in range(nc):
+                        want = 0.0 if stacked[r][c] is None \
+                            else stacked[r][c]
+                        ctx.check(same_value(ctx, X[r, c], want),
+                                  'stacked dense values')
+    return 'ok'
+
+
+def classify_amal(f, case):
+    w = f['witness']
+    nnz = sum(1 for k, v in w.items() if '.nz[' in k and v is True)
+    if case.get('sparse') and nnz == 0:
+        return 'F8:amalgamate_csr_to_x-without-stored-entry'
+    if case.get('sparse'):
+        for p in range(case['pieces']):
+            if not any(v is True for k, v in w.items()
+                       if k.startswith(f"m{p}.nz[")):
+                return 'F8:amalgamate_csr_to_x-piece-without-stored-entry'
+    return None
+
+
 HARNESSES = [
     Harness('transpose_on_disk', h_transpose, setup=setup_tr,
             cases=[{'shape': [2, 3]}, {'shape': [3, 2]},
@@ -214,6 +449,54 @@ HARNESSES = [
                     'loops); HDF5 storage layer',
             classify=classify_tr, expect_reach=['transposed'], selftest=12,
             split=64),
+    Harness('transpose_parallel', h_parallel, setup=setup_par,
+            cases=[{'shape': [2, 2]}, {'shape': [3, 2], 'data': True},
+                   {'shape': [4, 1], 'data': False, 'max_proc': 4}],
+            thorough_cases=[{'shape': [2, 2], 'K': 2}, {'shape': [3, 2]},
+                            {'shape': [2, 3]},
+                            {'shape': [4, 1], 'max_proc': 4},
+                            {'shape': [3, 3], 'data': True},
+                            {'shape': [2, 1], 'blocks': True,
+                             'max_proc': 2}],
+            funcs=['csc_to_csr_parallel.transpose_sparse_matrix_on_disk_v2',
+                   '_transpose_sparse_matrix_on_disk_v2',
+                   '_transpose_subset_of_indices',
+                   'csc_to_csr.transpose_sparse_matrix_on_disk',
+                   'multiprocessing_utils.winnow_process_list'],
+            stubs=['h5py -> model', 'multiprocessing -> scheduler model'],
+            bounds='every pattern of 2x2, 3x2, 4x1 (thorough 2x3, 3x3), '
+                   'symbolic values, 1-3 (4) workers (symbolic), with and '
+                   'without value array, every completion order within K',
+            classify=classify_par, expect_reach=['transposed'], selftest=4,
+            split=48),
+    Harness('copy_layer_to_x', h_copy_layer, setup=setup_copy,
+            cases=[{'shape': [2, 3], 'enc': 'dense'},
+                   {'shape': [3, 2], 'enc': 'dense'},
+                   {'shape': [2, 2], 'enc': 'csr'},
+                   {'shape': [2, 2], 'enc': 'csc'}],
+            funcs=['anndata_utils._copy_layer_to_x_dense',
+                   '_copy_layer_to_x_sparse'],
+            stubs=['h5py -> model', 'the obs/var skeleton written by '
+                   'anndata is replaced by an empty file'],
+            bounds='every pattern of 2x3 / 3x2 (dense: contiguous or any '
+                   'chunk shape) and 2x2 (CSR, CSC), symbolic values',
+            expect_reach=['copied'], selftest=6, split=32),
+    Harness('amalgamate_to_x', h_amalgamate, setup=setup_copy,
+            cases=[{'cols': 2, 'pieces': 2, 'rows': [1, 1], 'sparse': True},
+                   {'cols': 2, 'pieces': 2, 'rows': [1, 2],
+                    'sparse': False}],
+            thorough_cases=[{'cols': 2, 'pieces': 2, 'rows': [1, 2],
+                             'sparse': True},
+                            {'cols': 2, 'pieces': 3, 'rows': [1, 1, 1],
+                             'sparse': True},
+                            {'cols': 2, 'pieces': 2, 'rows': [2, 1],
+                             'sparse': False}],
+            funcs=['anndata_utils.amalgamate_csr_to_x',
+                   'amalgamate_dense_to_x'],
+            stubs=['h5py -> model'], classify=classify_amal,
+            bounds='2-3 pieces of 1-2 rows x 2 columns, every pattern, '
+                   'symbolic values',
+            expect_reach=['stacked'], selftest=6),
     Harness('copy_slices', h_slices, setup=setup_slices,
             cases=[{'ndim': 1, 'max_dim': 8}, {'ndim': 2, 'max_dim': 5}],
             funcs=['h5_utils._get_slices_for_copy'],
